@@ -198,7 +198,11 @@ pub fn qf_run(q: usize, r: usize, kind: usize, stats: &mut MStats) -> Vec<Viol> 
                     vs.push(viol("C12", format!("medium qf(q={},r={}) failed union changes the filter", q, r), format!("union into a full filter returned Err but len() = {} (capacity {}), queries changed: {}, new fingerprints visible: {}", f.len(), cap, before != after, phantom), cfg.clone()));
                 }
             }
-            Ok(Ok(())) => vs.push(viol("C13", format!("medium qf(q={},r={}) union Ok beyond capacity", q, r), "union of a full filter with new fingerprints succeeded".into(), cfg.clone())),
+            Ok(Ok(())) => {
+                vs.push(viol("C13", format!("medium qf(q={},r={}) union Ok beyond capacity", q, r), "union of a full filter with new fingerprints succeeded".into(), cfg.clone()));
+                // the same outcome seen from C06: the union reports Ok where A's stream followed by B's stream reports Full
+                vs.push(viol("C06", format!("medium qf(q={},r={}) union Ok where both streams do not fit", q, r), "union of a full filter with new fingerprints returned Ok; a filter fed both streams reports Full".into(), cfg.clone()));
+            }
             Err(p) => vs.push(viol("C12", format!("medium qf(q={},r={}) failing union panics", q, r), format!("union panicked: {}", p), cfg.clone())),
         }
     }
